@@ -1156,3 +1156,98 @@ func (cx *Ctx) existsCheckersOf(m, prefix string) []*ssa.Function {
 	}
 	return out
 }
+
+// ------------------------------------------------------------ unpersisted modifications
+
+// recordPrefixes: record type name -> prefixes under which values of that type are stored.
+func (cx *Ctx) recordPrefixes() map[string]map[string]bool {
+	out := map[string]map[string]bool{}
+	for _, f := range cx.P.AllFuncs {
+		if !isConsensusCode(cx, f) {
+			continue
+		}
+		for _, p := range cx.primsOf(f) {
+			if p.Kind != "store.set" || len(p.Prefix) != 1 || len(p.Site.Common().Args) < 2 {
+				continue
+			}
+			ms := marshalSource(p.Site.Common().Args[1])
+			if ms == nil {
+				continue
+			}
+			n := namedOf(ms.Type())
+			if n == nil || n.Obj().Pkg() == nil || !strings.HasPrefix(n.Obj().Pkg().Path(), modPrefix) {
+				continue
+			}
+			if out[n.Obj().Name()] == nil {
+				out[n.Obj().Name()] = map[string]bool{}
+			}
+			out[n.Obj().Name()][p.Prefix[0]] = true
+		}
+	}
+	return out
+}
+
+type unpersisted struct {
+	e  *Entry
+	ev *Event
+	w  *Walker
+}
+
+// unpersistedMods: field updates of a stored record type that are not followed,
+// on every feasible path to a successful return, by a store under one of the
+// prefixes that hold that type.
+func (cx *Ctx) unpersistedMods(cw *c13Walk, rp map[string]map[string]bool) []unpersisted {
+	var out []unpersisted
+	for _, x := range cw.evs {
+		var tf string
+		switch {
+		case strings.HasPrefix(x.ev.Kind, "assign:"):
+			tf = strings.TrimPrefix(x.ev.Kind, "assign:")
+		case strings.HasPrefix(x.ev.Kind, "delta:"):
+			tf = strings.TrimPrefix(x.ev.Kind, "delta:")
+			tf = tf[:strings.LastIndex(tf, ":")]
+		default:
+			continue
+		}
+		typ := tf[:strings.Index(tf, ".")]
+		prefixes := rp[typ]
+		if len(prefixes) == 0 {
+			continue
+		}
+		if infeasible(cw.w.FactsAt(x.ev.Fr, x.ev.Site)) {
+			continue
+		}
+		ok := false
+		for _, y := range cw.evs {
+			if y.ev.Kind != "store.set" || len(y.ev.Prefix) != 1 || !prefixes[y.ev.Prefix[0]] {
+				continue
+			}
+			if followedBy(x.ev, y.ev) {
+				ok = true
+				break
+			}
+		}
+		if !ok {
+			out = append(out, unpersisted{cw.e, x.ev, cw.w})
+		}
+	}
+	return out
+}
+
+func init() {
+	dumps["unpersisted"] = func(cx *Ctx) {
+		rp := cx.recordPrefixes()
+		for _, e := range cx.EntriesOf("msg", "abci", "callback") {
+			ee := e
+			cw := cx.c13WalkEntry(&ee, &Report{})
+			seen := map[string]bool{}
+			for _, u := range cx.unpersistedMods(cw, rp) {
+				k := fmt.Sprintf("%s %s: %s at %s = %s\n    chain %s", e.Module, e.Name, u.ev.Kind, u.ev.Pos(cx), trunc(u.ev.Args[0].LooseString(), 80), u.ev.Fr)
+				if !seen[k] {
+					seen[k] = true
+					fmt.Println(k)
+				}
+			}
+		}
+	}
+}
